@@ -52,7 +52,11 @@ CHECKS.update({
         design="§9 C02",
         note="Trusted: Verus/Z3, vstd (BTreeSet specs), the regex-crate model (external_body: for `\\n` the captures are the line feeds, one group each, increasing offsets), solang_parser::parse as an uninterpreted partial function, HashSet by-value iteration model, precondition that reported locations are Loc::File offsets of token starts and that a text has < 2^31-16 line feeds. The bounded parts are never counted as proved.",
         technique="contract-based deductive verification (Verus) of get_line_number and analyze_for_* against the line model; bounded executable-contract check (exhaustive on short texts) as counterexample engine and for the regex model"),
-    "C17": bounded("Relational check over token-preserving re-layouts (one token per line as reference, CRLF, random white space, code-like comments, multi-byte comments, string contents neutralised): the same tokens start flagged constructs, for 30 detectors. Deductive half: every spec predicate pat_P of the Verus units is Loc-blind.", "the lexer/parser (an unverified dependency)", "§9 C17"),
+    "C17": dict(level="other",
+        text="Verus (unit blind, lemmas over the proved contracts): for parse trees that are equal up to the values of their Loc fields (relation eqv_<T>, generated from the parse-tree type definitions) the node enumerations correspond (generated lemma per node type, proved), hence so do the results of the tree search (lemma_walk_eqv; with C01 of the real walker); each of the 12 predicates of the hits-form detectors of unit det_expr (address_balance, address_zero, bool_equals_bool, assign_update_array_value, multiple_require, optimal_comparison, shift_math, solidity_keccak256, solidity_math, unsafe_erc20_operation, floating_pragma, divide_before_multiply) is PROVED to give the same verdict on corresponding nodes, so the same positions of the search result are flagged (lemma_c17_same_positions_flagged). BOUNDED: that a token-preserving re-layout changes the parse tree only in its locations (parser assumption), comments / string contents, all other detectors and the line arithmetic: relational check over token-preserving re-layouts (one token per line as reference, CRLF, random white space, code-like comments, multi-byte comments, string contents neutralised): the same tokens start flagged constructs, for 30 detectors.",
+        design="§9 C17",
+        note="Trusted: Verus/Z3, vstd; the detector postconditions of unit det_expr and the walker contract of unit ast (proved there). BOUNDED, never counted as proved: the lexer/parser (an unverified dependency) and everything listed as bounded in the text.",
+        technique="contract-based deductive verification (Verus): relational lemmas (equality up to locations) over the proved detector contracts; bounded relational check of the real analysis over re-layouts for the parser-dependent part"),
     "C15": dict(level="other",
         text="Verus (unit dispatch): analyze_for_* are PROVED to return a set that is a function of (text, file number, pattern) alone -- `is_lines_of(r@, text, locs(pattern, parse_tree(text, file_number)))` -- given that the parser and each detector are functions of their arguments (proved for the detectors with set-valued contracts in the det_* units; frame scan for statics / thread_locals / interior mutability for the rest). BOUNDED for everything about the run around a call: each (file, pattern) evaluated alone, repeated, with different file numbers, after the 29 other patterns in seeded permuted orders, from 8 concurrently running threads (also deeply nested files), from the same String buffer holding different texts one after the other, in a fresh process, and inside analyze_dir with arbitrary siblings (native c03); results compared. Thread interleavings are sampled by the OS scheduler, not explored.",
         design="§9 C15",
